@@ -339,6 +339,42 @@ func locksMain(args []string) {
 			return "ok"
 		})
 	}
+	// B3. the real trigger at the real depth: more than 3000 proposals with the truncation loop running
+	// (truncate_at_weight 2000, depth 1000); afterwards vertices have been moved to storage and the node answers
+	if thorough {
+		accountant.VerifTruncateDepth = 0
+		if r.lb != nil {
+			r.lb.close()
+		}
+		lb := &lockBook{}
+		for _, w := range []*wallet.Wallet{&lb.node, &lb.gr, &lb.a, &lb.b} {
+			*w, _ = wallet.New()
+		}
+		ctx, cancel := context.WithCancel(context.Background())
+		lb.cancel = cancel
+		lb.ab, _ = accountant.NewAccountingBook(ctx, accountant.Config{Truncate: 2000}, wallet.NewVerifier(), &lb.node, nopLogger{})
+		_, _ = lb.ab.CreateGenesis("GENESIS", spice.New(1_000_000, 0), []byte{}, lb.gr.Address())
+		r.lb = lb
+		r.scenario("truncate.realtrigger", 3200, func(lb *lockBook) string {
+			for i := 0; i < 3200; i++ {
+				if _, err := lb.propose(context.Background()); err != nil {
+					return "propose:" + errClass(err)
+				}
+			}
+			deadline := time.Now().Add(8 * time.Second)
+			for time.Now().Before(deadline) {
+				if s, err := lb.ab.VerifSnapshot(); err == nil && len(s.Stored) > 0 {
+					b, err := lb.ab.CalculateBalance(context.Background(), lb.a.Address())
+					if err != nil || b.Spice.Currency != 3200 {
+						return fmt.Sprintf("balance after truncation: %v %v", b.Spice, err)
+					}
+					return fmt.Sprintf("ok:stored=%d live=%d", len(s.Stored), len(s.Live))
+				}
+				time.Sleep(50 * time.Millisecond)
+			}
+			return "no truncation happened"
+		})
+	}
 	// C. validation error inside a walk: a tip whose funds do not suffice is dropped by the next proposal
 	r.fresh()
 	r.scenario("propose.invalidtip", 0, func(lb *lockBook) string {
